@@ -131,6 +131,11 @@ def rows(limit=None):
         row(f"over[{vn}][{on}]", f"{vsrc}/{osrc}", want)
         # Over-Neutral
         row(f"over-neutral[{vn}][{on}]", f"9{vsrc}/{osrc}", _ev(k, _fold(k, app, items, init='9')))
+        # the same adverbs with the operands reached through variables (the form the expression compiler may take over): same value
+        row(f"over[{vn}][{on}][via-variables]", f"ovb::{osrc};{vsrc}/ovb", want)
+        row(f"over-neutral[{vn}][{on}][via-variables]", f"ova::9;ovb::{osrc};ova{vsrc}/ovb", _ev(k, _fold(k, app, items, init='9')))
+        if n >= 1:
+            row(f"scan-over[{vn}][{on}][via-variables]", f"ovb::{osrc};{vsrc}\\ovb", listof([_fold(k, app, items[:i + 1]) for i in range(n)]))
         # Scan-Over: the prefixes of the fold
         if n >= 1:
             row(f"scan-over[{vn}][{on}]", f"{vsrc}\\{osrc}", listof([_fold(k, app, items[:i + 1]) for i in range(n)]))
